@@ -164,6 +164,8 @@ enum Op {
     Insert(usize, Vec<i64>),
     Update(usize, Cond, Vec<(usize, i64)>),
     Delete(usize, Cond),
+    /// `batch_insert`: rows appended outside any transaction (no lock, no transaction id)
+    BatchInsert(usize, Vec<Vec<i64>>),
     CreateIndex(usize, usize),
     CreateBtree(usize, usize),
     DropIndex(usize, usize),
@@ -210,6 +212,8 @@ impl Op {
             Op::Insert(t, v) => format!("insert {t} {}", vals_tok(v)),
             Op::Update(t, c, u) => format!("update {t} {} {}", c.tok(), upd_tok(u)),
             Op::Delete(t, c) => format!("delete {t} {}", c.tok()),
+            Op::BatchInsert(t, rows) => format!("batch_insert {t} {}",
+                if rows.is_empty() { "-".to_string() } else { rows.iter().map(|v| vals_tok(v)).collect::<Vec<_>>().join(";") }),
             Op::CreateIndex(t, c) => format!("create_index {t} {c}"),
             Op::CreateBtree(t, c) => format!("create_btree {t} {c}"),
             Op::DropIndex(t, c) => format!("drop_index {t} {c}"),
@@ -233,6 +237,7 @@ impl Op {
             Op::Insert(..) => "insert",
             Op::Update(..) => "update",
             Op::Delete(..) => "delete_rows",
+            Op::BatchInsert(..) => "batch_insert",
             Op::CreateIndex(..) => "create_index",
             Op::CreateBtree(..) => "create_btree_index",
             Op::DropIndex(..) => "drop_index",
@@ -519,6 +524,14 @@ impl World {
             },
             Op::Update(t, c, u) => res(self.eng.update(&Self::tname(*t), c.real(), upd(u))),
             Op::Delete(t, c) => res(self.eng.delete_rows(&Self::tname(*t), c.real())),
+            Op::BatchInsert(t, rows) => match self.eng.batch_insert(&Self::tname(*t), rows.iter().map(&row).collect()) {
+                // the ids must be consecutive: reported as count + first id
+                Ok(ids) => {
+                    let consecutive = ids.windows(2).all(|w| w[1] == w[0] + 1);
+                    format!("ok {} {}{}", ids.len(), ids.first().copied().unwrap_or(0), if consecutive { "" } else { " NOT-CONSECUTIVE" })
+                },
+                Err(e) => format!("err {}", err_class(&e)),
+            },
             Op::CreateIndex(t, c) => unit(self.eng.create_index(&Self::tname(*t), &format!("c{c}"))),
             Op::CreateBtree(t, c) => unit(self.eng.create_btree_index(&Self::tname(*t), &format!("c{c}"))),
             Op::DropIndex(t, c) => unit(self.eng.drop_index(&Self::tname(*t), &format!("c{c}"))),
@@ -736,7 +749,7 @@ fn exec_script(ops: &[Op], cfg: Cfg, mut model: Option<&mut Model>) -> Outcome {
         // ---- oracles on the implementation's own behaviour
         let writer: Option<Option<usize>> = match op {
             Op::TxInsert(h, ..) | Op::TxUpdate(h, ..) | Op::TxDelete(h, ..) => Some(Some(*h)),
-            Op::Insert(..) | Op::Update(..) | Op::Delete(..) => Some(None),
+            Op::Insert(..) | Op::Update(..) | Op::Delete(..) | Op::BatchInsert(..) => Some(None),
             _ => None,
         };
         if let Some(wr) = writer {
@@ -1114,7 +1127,7 @@ fn exec_script(ops: &[Op], cfg: Cfg, mut model: Option<&mut Model>) -> Outcome {
 
         // ---- observation of the whole state: model comparison + index oracle
         let full = matches!(op, Op::Commit(_) | Op::Rollback(_) | Op::Sweep | Op::CreateIndex(..) | Op::CreateBtree(..)
-            | Op::DropIndex(..) | Op::DropBtree(..) | Op::CleanupTxs | Op::CleanupLocks | Op::Insert(..) | Op::Update(..) | Op::Delete(..))
+            | Op::DropIndex(..) | Op::DropBtree(..) | Op::CleanupTxs | Op::CleanupLocks | Op::Insert(..) | Op::Update(..) | Op::Delete(..) | Op::BatchInsert(..))
             || step + 1 == ops.len();
         let lock_step = full || matches!(op, Op::TxUpdate(..) | Op::TxDelete(..) | Op::Tick(_));
         for t in 0..w.ntables {
@@ -1435,6 +1448,16 @@ impl Sim {
                     self.write(h, (*t, id), None);
                 }
             },
+            Op::BatchInsert(t, rows) => {
+                if *t >= self.rows.len() || rows.iter().any(|v| v.len() != NCOLS) {
+                    return;
+                }
+                for v in rows {
+                    let id = self.next_id[*t];
+                    self.next_id[*t] += 1;
+                    self.write(None, (*t, id), Some(v.iter().map(|x| vnorm(*x)).collect()));
+                }
+            },
             Op::CreateIndex(t, c) | Op::CreateBtree(t, c) => {
                 if let Some(ix) = self.indexed.get_mut(*t) {
                     ix.insert((*c, matches!(op, Op::CreateBtree(..))));
@@ -1577,8 +1600,23 @@ fn gen_script(rng: &mut Rng, len: usize, ddl: bool, pool: &[i64]) -> Vec<Op> {
                 finished.push(h);
             },
             73..=77 => {
-                ops.push(Op::Insert(t, gen_vals_n(rng, nullable.get(t).map_or(&[][..], |v| &v[..]), pool)));
-                approx_rows[t] += 1;
+                if rng.chance(2, 5) {
+                    // batch_insert: 0-3 rows appended outside any transaction; one batch in six has a row that lacks a
+                    // column (refused as a whole unless that column is nullable) or names an unknown table
+                    let nl = nullable.get(t).map_or(&[][..], |v| &v[..]);
+                    let mut rows: Vec<Vec<i64>> = (0..rng.below(4)).map(|_| gen_vals_n(rng, nl, pool)).collect();
+                    let mut tt = t;
+                    match rng.below(12) {
+                        0 => rows.push(vec![*rng.pick(pool)]),
+                        1 => tt = 9,
+                        _ => {},
+                    }
+                    approx_rows[t] += rows.len() as u64;
+                    ops.push(Op::BatchInsert(tt, rows));
+                } else {
+                    ops.push(Op::Insert(t, gen_vals_n(rng, nullable.get(t).map_or(&[][..], |v| &v[..]), pool)));
+                    approx_rows[t] += 1;
+                }
             },
             78..=82 => {
                 let aimed = if rng.chance(1, 4) { sim.same_value_update(rng, None, t, pool) } else { None };
@@ -1750,6 +1788,14 @@ fn directed() -> Vec<(&'static str, Cfg, Vec<Op>)> {
                   TxUpdate(0, 0, Cond::Eq(0, NULLV), vec![(0, NULLV), (1, 2)]), Update(0, Cond::All, vec![(1, NULLV)]), Sweep, end, Sweep]);
         out.push((name, nul, s));
     }
+    // batch_insert next to open transactions: it takes no lock and no transaction id, never conflicts, is refused as a
+    // whole when one row is bad, and its rows are committed work that a later rollback of anybody leaves alone
+    let mut s = base(true);
+    s.extend([Begin(0), TxUpdate(0, 0, Cond::All, vec![(1, 4)]), TxInsert(0, 0, vec![4, 4]),
+              BatchInsert(0, vec![vec![5, 5], vec![1, 0]]), BatchInsert(0, vec![vec![2, 2], vec![3]]), BatchInsert(0, vec![]), BatchInsert(9, vec![]),
+              BatchInsert(9, vec![vec![1, 1]]), Begin(1), TxUpdate(1, 0, Cond::Ge(0, 5), vec![(0, 0)]), TxDelete(1, 0, Cond::Id(6)),
+              TxUpdate(0, 0, Cond::Id(6), vec![(0, 1)]), TxSelect(0, 0, Cond::All), Sweep, Rollback(0), BatchInsert(0, vec![vec![0, 0]]), Sweep, Rollback(1), Sweep]);
+    out.push(("batch_insert_beside_open_transactions", long, s));
     // both index kinds on the SAME column (hash c0 + b-tree c0 + b-tree c1)
     let mut s = base(true);
     s.extend([Begin(0), TxUpdate(0, 0, Cond::Id(1), vec![(0, 1)]), TxUpdate(0, 0, Cond::All, vec![(1, 2)]), Sweep, Rollback(0), Sweep]);
@@ -2171,6 +2217,7 @@ fn main() {
         "op:insert:table_not_found", "op:update:table_not_found", "op:update:column_not_found", "op:delete_rows:table_not_found",
         "tx_select_by_open_tx", "tx_select_by_finished_tx", "and_condition_served_by_hash_index", "and_condition_served_by_btree_index",
         "directed:compound_condition_lock_set", "directed:and_condition_through_index_rollback", "directed:tx_select_open_and_finished",
+        "directed:batch_insert_beside_open_transactions", "op:batch_insert:ok", "op:batch_insert:bad_input", "op:batch_insert:table_not_found",
         "directed:failed_statements_change_nothing", "directed:null_values_indexed_rollback", "directed:null_values_indexed_commit",
         "op:update:bad_input", "op:tx_update:bad_input", "null_stored:omitted", "null_stored:explicit", "null_assigned_by_update",
         "null_compared_in_condition", "directed:extreme_values_hash_and_btree", "op:insert:ok", "op:update:ok", "op:update:lock_conflict", "op:delete_rows:ok",
